@@ -291,9 +291,14 @@ def handle (op : String) (c i : Json) : Except String (Json × String) := do
     let fs ← (← J.arr (← J.key c "frames")).mapM fun fj => do
       let sigs ← (← J.arr (← J.key fj "sigs")).mapM fun sj => do
         let vals ← (← J.arr (← J.key sj "values")).mapM fun e => do pure ((← J.int (← J.idx e 0)), (← J.str (← J.idx e 1)).toList)
-        pure ({ sg := ← sgOf (← J.key sj "sg"), comment := ← optStr (← J.key sj "comment"), values := vals } : WSig)
+        let rngs ← (← J.arr (← J.key sj "ranges")).mapM fun r => do pure ((← J.nat (← J.idx r 0)), (← J.nat (← J.idx r 1)))
+        pure ({ sg := ← sgOf (← J.key sj "sg"), comment := ← optStr (← J.key sj "comment"), values := vals,
+                isFloat := ← J.bool (← J.key sj "float"), muxer := ← optStr (← J.key sj "muxer"), ranges := rngs } : WSig)
       pure ({ bo := ← boOf (← J.key fj "bo"), sigs := sigs, moreSenders := (← J.strList (← J.key fj "more")).map String.toList,
-              comment := ← optStr (← J.key fj "comment") } : WFrame)
+              comment := ← optStr (← J.key fj "comment"),
+              groups := ← (← J.arr (← J.key fj "groups")).mapM fun gj => do
+                pure ({ name := (← J.str (← J.key gj "name")).toList, id := ← J.nat (← J.key gj "id"),
+                        members := (← J.strList (← J.key gj "members")).map String.toList } : RGroup) } : WFrame)
     pure (J.obj [("core", J.ofStrList ((writeCore fs).map String.ofList))], "ok")
   | "post" =>
     -- i = {"lines": the lines of a file, "final": the projection of the matrix dbc.load returns (names, senders, receivers, comments,
